@@ -356,3 +356,53 @@ def call_alternatives(fnode, call, params=()):
                     new.append((d, cc))
         alts = new
     return [(kw, c + base) for kw, c in alts]
+
+
+def expand_values(fnode, e, params=(), depth=0):
+    """What an expression can evaluate to, with the conditions selecting
+    each value: conditional expressions give both arms, `a or b` gives a
+    (when a is true) and b (when it is not), a local name the values of its
+    assignments.  -> [(leaf expression, [(test, polarity)])]"""
+    if depth > 6:
+        return [(e, [])]
+    if isinstance(e, ast.IfExp):
+        return ([(v, [(e.test, True)] + c) for v, c in expand_values(
+            fnode, e.body, params, depth + 1)] +
+                [(v, [(e.test, False)] + c) for v, c in expand_values(
+                    fnode, e.orelse, params, depth + 1)])
+    if isinstance(e, ast.BoolOp) and isinstance(e.op, ast.Or):
+        out = []
+        before = []
+        for i, v in enumerate(e.values):
+            last = i == len(e.values) - 1
+            for leaf, c in expand_values(fnode, v, params, depth + 1):
+                out.append((leaf, before + ([] if last else [(v, True)])
+                            + c))
+            before = before + [(v, False)]
+        return out
+    if isinstance(e, ast.Name) and e.id not in params:
+        alts = alternatives(fnode, e.id)
+        if alts:
+            out = []
+            own = {a.arg for a in getattr(fnode, "args", None).args +
+                   fnode.args.kwonlyargs} if hasattr(fnode, "args") else ()
+            if e.id in own:
+                # a parameter that is re-bound on some paths keeps the
+                # caller's value on the others
+                out.append((e, []))
+            for v, c in alts:
+                for leaf, c2 in expand_values(fnode, v, params, depth + 1):
+                    out.append((leaf, c2 + list(c)))
+            return out
+    return [(e, [])]
+
+
+def is_absent_test(conds, name):
+    """Do the conditions say that the variable `name` is empty / None?"""
+    for t, pol in conds:
+        tt = U(t)
+        if (tt == name and not pol) or (tt == "not " + name and pol) or (
+                tt == name + " is None" and pol) or (
+                    tt == name + " is not None" and not pol):
+            return True
+    return False
